@@ -22,7 +22,7 @@ SPEC = {
     "props": ["props/C07.v"],
     "corr": ["corr/Noise_corr.v"],
     "build_comp": "noise",
-    "comps": [{"comp": "noise_c07", "n_quick": 150, "n_thorough": 4000}],
+    "comps": [{"comp": "noise_c07", "n_quick": 110, "n_thorough": 4000}],
     "trusted": ["model/Noise.v is a hand-written mirror of flynn/noise v1.1.0 HandshakeState.ReadMessage/WriteMessage, symmetricState "
                 "(MixHash, MixKey, EncryptAndHash, DecryptAndHash, Split, Checkpoint, Rollback) for the IX pattern without psk",
                 "model/Machine.v is a hand-written mirror of handshake/machine.go (NewMachine, Initiate, ProcessPacket, processPayload, "
